@@ -17,6 +17,8 @@ class Holder(def hi: Int, def hf: Float, def hs: Str, def hb: Base)
     def ms(self, a: Str) -> Str => a
     def mb(self, a: Base) -> Int => a.get()
     def mc(self, a: Child) -> Int => a.more()
+    def m2(self, a: Int, b: Int) -> Int => a + b
+    def m3(self, a: Int, b: Int, c: Str := "c") -> Int => a + b
 
 class Boom(msg: Str): Exception(msg)
 
@@ -32,6 +34,8 @@ def fb(a: Base) -> Int => a.get()
 def fc(a: Child) -> Int => a.more()
 def fo(a: Other) -> Str => a.name()
 def fany(a: Any) -> Int => 1
+def f2(a: Int, b: Int) -> Int => a + b
+def f3(a: Int, b: Str, c: Int := 1, d: Int := 2) -> Int => a + c
 '''
 
 PRIM_SUB = {('Int', 'Float'), ('Int', 'Complex'), ('Float', 'Complex')}
@@ -67,11 +71,11 @@ def is_sub(a, b):
 
 # fillers: type -> list of (form name, setup lines, expression)
 FILLERS = {
-    'Int': [('lit', [], '3'), ('var', ['def fvi: Int := 3'], 'fvi'), ('call', [], 'fi(1)'), ('expr', [], '(1 + 2)')],
-    'Float': [('lit', [], '2.5'), ('var', ['def fvf: Float := 2.5'], 'fvf'), ('call', [], 'ff(1.5)')],
-    'Str': [('lit', [], '"s"'), ('var', ['def fvs: Str := "s"'], 'fvs'), ('fstr', [], '"a{1}"')],
+    'Int': [('lit', [], '3'), ('var', ['def fvi: Int := 3'], 'fvi'), ('ivar', ['def fwi := 3'], 'fwi'), ('call', [], 'fi(1)'), ('expr', [], '(1 + 2)')],
+    'Float': [('lit', [], '2.5'), ('var', ['def fvf: Float := 2.5'], 'fvf'), ('ivar', ['def fwf := 2.5'], 'fwf'), ('call', [], 'ff(1.5)')],
+    'Str': [('lit', [], '"s"'), ('var', ['def fvs: Str := "s"'], 'fvs'), ('ivar', ['def fws := "s"'], 'fws'), ('fstr', [], '"a{1}"')],
     'Bool': [('lit', [], 'True'), ('var', ['def fvb: Bool := False'], 'fvb'), ('cmp', [], '(1 < 2)')],
-    'Base': [('new', [], 'Base(1)'), ('var', ['def fvo: Base := Base(1)'], 'fvo')],
+    'Base': [('new', [], 'Base(1)'), ('var', ['def fvo: Base := Base(1)'], 'fvo'), ('ivar', ['def fwo := Base(1)'], 'fwo')],
     'Child': [('new', [], 'Child(1, 2)'), ('var', ['def fvc: Child := Child(1, 2)'], 'fvc')],
     'Other': [('new', [], 'Other("o")'), ('var', ['def fvx: Other := Other("o")'], 'fvx')],
 }
@@ -118,6 +122,15 @@ ARITY = [
     ('method-2', 'print(Holder(1, 1.5, "s", Base(1)).mi(1, 2))', False),
     ('method-default-omitted', 'print(Holder(1, 1.5, "s", Base(1)).mf(1.5))', True), ('method-default-given', 'print(Holder(1, 1.5, "s", Base(1)).mf(1.5, 2))', True),
     ('method-default-too-many', 'print(Holder(1, 1.5, "s", Base(1)).mf(1.5, 2, 3))', False),
+    ('f2-1', 'print(f2(1))', False), ('f2-2', 'print(f2(1, 2))', True), ('f2-3', 'print(f2(1, 2, 3))', False),
+    ('f3-1', 'print(f3(1))', False), ('f3-2', 'print(f3(1, "b"))', True), ('f3-3', 'print(f3(1, "b", 3))', True), ('f3-4', 'print(f3(1, "b", 3, 4))', True),
+    ('f3-5', 'print(f3(1, "b", 3, 4, 5))', False),
+    ('m2-0', 'print(Holder(1, 1.5, "s", Base(1)).m2())', False), ('m2-1', 'print(Holder(1, 1.5, "s", Base(1)).m2(1))', False),
+    ('m2-2', 'print(Holder(1, 1.5, "s", Base(1)).m2(1, 2))', True), ('m2-3', 'print(Holder(1, 1.5, "s", Base(1)).m2(1, 2, 3))', False),
+    ('m3-1', 'print(Holder(1, 1.5, "s", Base(1)).m3(1))', False), ('m3-2', 'print(Holder(1, 1.5, "s", Base(1)).m3(1, 2))', True),
+    ('m3-3', 'print(Holder(1, 1.5, "s", Base(1)).m3(1, 2, "x"))', True), ('m3-4', 'print(Holder(1, 1.5, "s", Base(1)).m3(1, 2, "x", 4))', False),
+    ('inherited-method-0', 'print(Child(1, 2).get(1))', False), ('inherited-method-ok', 'print(Child(1, 2).get())', True),
+    ('nested-arg-arity', 'print(fi(f2(1)))', False), ('nested-arg-arity-ok', 'print(fi(f2(1, 2)))', True),
     ('ctor-0', 'def ao := Base()', False), ('ctor-1', 'def ao := Base(1)', True), ('ctor-2', 'def ao := Base(1, 2)', False),
     ('ctor-child-1', 'def ao := Child(1)', False), ('ctor-child-2', 'def ao := Child(1, 2)', True), ('ctor-child-3', 'def ao := Child(1, 2, 3)', False),
 ]
@@ -194,6 +207,12 @@ def c05_cells():
         'else-tail': ['if k > 5 then', '    @V@', 'else', '    @R@'],
         'match-arm-tail': ['match k', '    1 =>', '        @R@', '    _ =>', '        @V@'],
         'loop-return': ['for z in 0 .. k do', '    return @R@', '@V@'],
+        'pre+tail': ['def pre: Int := k + 1', '@R@'],
+        'pre+if-else-tail': ['def pre: Int := k + 1', 'if pre > 0 then', '    @R@', 'else', '    @V@'],
+        'pre+else-tail': ['def pre: Int := k + 1', 'print(pre)', 'if pre > 5 then', '    @V@', 'else', '    @R@'],
+        'pre+match-arm-tail': ['def pre: Int := k + 1', 'match pre', '    1 =>', '        @R@', '    _ =>', '        @V@'],
+        'nested-if-tail': ['if k > 0 then', '    if k > 1 then', '        @R@', '    else', '        @V@', 'else', '    @V@'],
+        'pre+return': ['def pre: Int := k + 1', 'print(pre)', 'return @R@'],
     }
     VALID = {'Int': '7', 'Float': '7.5', 'Str': '"v"', 'Bool': 'False', 'Base': 'Base(7)', 'Child': 'Child(7, 8)'}
     for rty in ('Int', 'Float', 'Str', 'Bool', 'Base', 'Child'):
@@ -213,4 +232,440 @@ def c05_cells():
                     src = PRELUDE + '\n' + '\n'.join(top) + '\n\n' + '\n'.join(main) + '\n'
                     out.append((f'return-{rty}<-{fty}@{holder}/{rc}', f'return:{cat}:{holder}/{rc}', src, conforms,
                                 {'use': 'return', 'expected_type': rty, 'filler_type': fty, 'ctx': f'{holder}/{rc}', 'category': cat, 'rule': 'return'}))
+    return out
+
+
+# ====================================================================================== C06: null safety
+C06_T = {
+    # T: (valid value, second valid value, operand template using @H@ or None, receiver template or None)
+    'Int': ('4', '5', 'print(@H@ + 1)', None),
+    'Float': ('4.5', '5.5', 'print(@H@ * 2.0)', None),
+    'Str': ('"v"', '"w"', 'print(@H@ + "s")', None),
+    'Bool': ('True', 'False', 'print(@H@ and True)', None),
+    'Base': ('Base(4)', 'Base(5)', None, 'print(@H@.get())'),
+    '(Int, Str)': ('(4, "v")', '(5, "w")', None, None),
+    'List[Int]': ('[4, 5]', '[6]', None, None),
+}
+
+
+def c06_prelude(T):
+    v, v2, _, _ = C06_T[T]
+    base = ('class Base(def bx: Int)\n    def get(self) -> Int => self.bx\n\n' if T == 'Base' else '')
+    return base + f'''class FBox(def f: {T})
+    def setf(self, a: {T}) -> Int => 1
+
+class NBox(def nf: {T}?)
+    def setn(self, a: {T}?) -> Int => 1
+
+class Boom(msg: Str): Exception(msg)
+
+def boomf() -> Int raise [Boom] =>
+    raise Boom("b")
+    0
+
+def take(a: {T}) -> Int => 1
+def taken(a: {T}?) -> Int => 1
+def nret() -> {T}? => None
+'''
+
+
+def c06_cells():
+    out = []
+    for T, (v, v2, operand, receiver) in C06_T.items():
+        pre = c06_prelude(T)
+        # sources: (name, setup lines, expression, static type)
+        sources = [
+            ('none', [], 'None', 'None'),
+            ('nvar-none', [f'def nv: {T}? := None'], 'nv', T + '?'),
+            ('nvar-set', [f'def nv: {T}? := {v}'], 'nv', T + '?'),
+            ('nfield', [f'def nb := NBox({v})'], 'nb.nf', T + '?'),
+            ('ncall', [], 'nret()', T + '?'),
+            ('qdefault', [f'def nv: {T}? := {v}'], f'(nv ? {v2})', T),
+            ('plain', [], v2, T),
+            ('plain-var', [f'def pv: {T} := {v2}'], 'pv', T),
+        ]
+        uses = [
+            ('local', [], f'def u: {T} := @H@', T), ('local-nullable', [], f'def u: {T}? := @H@', T + '?'),
+            ('reassign', [f'def u: {T} := {v}'], 'u := @H@', T), ('reassign-nullable', [f'def u: {T}? := {v}'], 'u := @H@', T + '?'),
+            ('field', [f'def fb := FBox({v})'], 'fb.f := @H@', T), ('field-nullable', [f'def xb := NBox({v})'], 'xb.nf := @H@', T + '?'),
+            ('arg', [], 'print(take(@H@))', T), ('arg-nullable', [], 'print(taken(@H@))', T + '?'),
+            ('method-arg', [f'def fb := FBox({v})'], 'print(fb.setf(@H@))', T), ('method-arg-nullable', [f'def xb := NBox({v})'], 'print(xb.setn(@H@))', T + '?'),
+            ('ctor', [], 'def uo := FBox(@H@)', T), ('ctor-nullable', [], 'def uo := NBox(@H@)', T + '?'),
+        ]
+        if operand:
+            uses.append(('operand', [], operand, T))
+        if receiver:
+            uses.append(('receiver', [], receiver, T))
+            uses.append(('receiver-field', [], 'print(@H@.bx)', T))
+        for uname, usetup, stmt, ety in uses:
+            for sname, ssetup, expr, sty in sources:
+                if uname in ('operand', 'receiver', 'receiver-field') and sname == 'none':
+                    pass
+                must = is_sub(sty, ety)
+                direction = ('null-into-nonnull' if not must else ('into-nullable' if ety.endswith('?') else 'nonnull-into-nonnull'))
+                for ctx in CONTEXTS:
+                    stmts = usetup + ssetup + [stmt.replace('@H@', expr)]
+                    src = wrap(stmts, ctx).replace(PRELUDE, pre)
+                    cid = f'{T}:{uname}<-{sname}@{ctx}'
+                    gid = f"{uname}:{sname}:{ctx}"
+                    out.append((cid, gid, src, must, {'T': T, 'use': uname, 'source': sname, 'ctx': ctx, 'direction': direction}))
+        # returns
+        for sname, ssetup, expr, sty in sources:
+            for rty in (T, T + '?'):
+                must = is_sub(sty, rty)
+                for form, lines in (('tail', ['@R@']), ('return', ['return @R@']), ('if-return', ['if k > 0 then', '    return @R@', '@V@'])):
+                    body = ssetup + [l.replace('@R@', expr).replace('@V@', v) for l in lines]
+                    top = [f'def retf(k: Int) -> {rty} =>'] + ind(body, 1)
+                    src = pre + '\n' + '\n'.join(top) + f'\n\ndef rr: {rty} := retf(1)\nprint("done")\n'
+                    out.append((f'{T}:return{"-nullable" if rty.endswith("?") else ""}<-{sname}@{form}', f"return{'-nullable' if rty.endswith('?') else ''}:{sname}:{form}",
+                                src, must, {'T': T, 'use': 'return', 'source': sname, 'ctx': 'fun/' + form}))
+        # nullable parameter used inside the function
+        for uname, stmt, ety in (('local', f'def u: {T} := p', T), ('local-nullable', f'def u: {T}? := p', T + '?'), ('arg', 'print(take(p))', T), ('arg-nullable', 'print(taken(p))', T + '?'),
+                                 ('qdefault', f'def u: {T} := p ? {v2}', T + '?')):
+            must = is_sub(T + '?', ety)
+            src = pre + f'\ndef usep(p: {T}?) -> Int =>\n    {stmt}\n    0\n\nprint(usep({v}))\n'
+            out.append((f'{T}:{uname}<-nparam@fun', f'{uname}:nparam:fun', src, must, {'T': T, 'use': uname, 'source': 'nparam', 'ctx': 'fun'}))
+    return out
+
+
+# ====================================================================================== C07: immutability
+C07_PRELUDE = '''class K(def fin cf: Int, def cm: Int)
+    def fin bf: Int := 0
+    def bm: Int := 0
+    def set_bm(self, v: Int) -> Int =>
+        self.bm := v
+        v
+    def look(fin self) -> Int => self.bm
+
+class Boom(msg: Str): Exception(msg)
+
+def boomf() -> Int raise [Boom] =>
+    raise Boom("b")
+    0
+'''
+
+ASSIGN_OPS = [(':=', '7'), ('+=', '1'), ('-=', '1'), ('*=', '2'), ('^=', '2'), ('<<=', '1'), ('>>=', '1')]
+
+# where the assignment stands relative to the definition (statements; @A@ = the assignment)
+NESTINGS = {
+    'same-block': ['@A@'],
+    'in-if': ['if 1 < 2 then', '    @A@'],
+    'in-else': ['if 1 > 2 then', '    print("n")', 'else', '    @A@'],
+    'in-for': ['for zi in 0 .. 2 do', '    @A@'],
+    'in-while': ['def zw := 0', 'while zw < 1 do', '    @A@', '    zw := zw + 1'],
+    'in-match-arm': ['match 1', '    1 =>', '        @A@', '    _ =>', '        print("n")'],
+    'in-handle-arm': ['boomf() handle', '    zerr: Boom =>', '        @A@'],
+    'nested-2': ['if 1 < 2 then', '    for zi in 0 .. 2 do', '        @A@'],
+    'nested-3': ['for zi in 0 .. 2 do', '    if zi < 5 then', '        match zi', '            0 =>', '                @A@', '            _ =>', '                print("n")'],
+}
+
+
+def c07_cells():
+    out = []
+    P = C07_PRELUDE
+
+    def add(cid, gid, stmts, ctx, must, meta, extra_top=()):
+        src = wrap(stmts, ctx, extra_top).replace(PRELUDE, P)
+        out.append((cid, gid, src, must, dict(meta, ctx=ctx)))
+
+    CTX = ['top', 'fun', 'method', 'loop', 'then', 'arm', 'handle-arm']
+    # local variable forms x fin x op x nesting
+    forms = {
+        'plain': 'def @F@x := 3', 'annotated': 'def @F@x: Int := 3', 'tuple': 'def @F@(x, xo) := (3, 4)',
+    }
+    for form, tmpl in forms.items():
+        for fin in (False, True):
+            d = tmpl.replace('@F@', 'fin ' if fin else '')
+            for op, val in ASSIGN_OPS:
+                for nest, lines in NESTINGS.items():
+                    if op != ':=' and nest not in ('same-block', 'in-if', 'in-for', 'nested-2'):
+                        continue
+                    stmts = [d] + [l.replace('@A@', f'x {op} {val}') for l in lines]
+                    for ctx in (CTX if (op == ':=' or nest == 'same-block') else ['top', 'fun']):
+                        add(f'local-{form}{"-fin" if fin else ""}:{op}:{nest}@{ctx}', f"local-{form}:{'fin' if fin else 'mut'}:{op}:{nest}:{ctx}",
+                            stmts, ctx, not fin, {'form': form, 'fin': fin, 'op': op, 'nest': nest})
+    # fields: class argument / body field, fin or not, through instance variable (fin or not), through self / fin self
+    for fld, fin_field in (('cf', True), ('cm', False), ('bf', True), ('bm', False)):
+        for recv_fin in (False, True):
+            for op, val in ASSIGN_OPS[:3]:
+                for nest in ('same-block', 'in-if', 'in-for', 'nested-2'):
+                    stmts = [f"def {'fin ' if recv_fin else ''}ko := K(1, 2)"] + [l.replace('@A@', f'ko.{fld} {op} {val}') for l in NESTINGS[nest]]
+                    must = not fin_field and not recv_fin
+                    for ctx in CTX:
+                        add(f'field-{fld}{"-finrecv" if recv_fin else ""}:{op}:{nest}@{ctx}',
+                            f"field:{'finfield' if fin_field else 'mutfield'}:{'finrecv' if recv_fin else 'mutrecv'}:{'classarg' if fld[0] == 'c' else 'body'}:{op}:{ctx}",
+                            stmts, ctx, must, {'field': fld, 'fin_field': fin_field, 'fin_receiver': recv_fin, 'op': op, 'nest': nest})
+    # through self in a method
+    for fld, fin_field in (('cf', True), ('cm', False), ('bf', True), ('bm', False)):
+        for self_kind in ('self', 'fin self'):
+            for op, val in ASSIGN_OPS[:2]:
+                for nest in ('same-block', 'in-if', 'in-for'):
+                    body = [l.replace('@A@', f'self.{fld} {op} {val}') for l in NESTINGS[nest]] + ['0']
+                    top = [f'class M(def fin cf: Int, def cm: Int)', '    def fin bf: Int := 0', '    def bm: Int := 0', f'    def poke({self_kind}) -> Int =>'] + ind(body, 2)
+                    src = P + '\n' + '\n'.join(top) + '\n\ndef mo := M(1, 2)\nprint(mo.poke())\n'
+                    must = not fin_field and self_kind == 'self'
+                    out.append((f'self-{fld}:{self_kind}:{op}:{nest}', f"self:{'finfield' if fin_field else 'mutfield'}:{self_kind.replace(' ', '-')}:{op}:{nest}", src, must,
+                                {'field': fld, 'fin_field': fin_field, 'self': self_kind, 'op': op, 'ctx': 'method/' + nest}))
+    # parameters
+    for fin in (False, True):
+        for op, val in ASSIGN_OPS[:3]:
+            for nest in ('same-block', 'in-if', 'in-for', 'in-match-arm'):
+                body = [l.replace('@A@', f'p {op} {val}') for l in NESTINGS[nest]] + ['p']
+                for holder in ('fun', 'method'):
+                    if holder == 'fun':
+                        top = [f"def pf({'fin ' if fin else ''}p: Int) -> Int =>"] + ind(body, 1)
+                        main = ['print(pf(1))']
+                    else:
+                        top = ['class PM', f"    def pm(self, {'fin ' if fin else ''}p: Int) -> Int =>"] + ind(body, 2)
+                        main = ['print(PM().pm(1))']
+                    src = P + '\n' + '\n'.join(top) + '\n\n' + '\n'.join(main) + '\n'
+                    out.append((f'param{"-fin" if fin else ""}:{op}:{nest}@{holder}', f"param:{'fin' if fin else 'mut'}:{op}:{holder}/{nest}", src, not fin,
+                                {'form': 'param', 'fin': fin, 'op': op, 'ctx': f'{holder}/{nest}'}))
+    # never defined
+    for op, val in ASSIGN_OPS[:3]:
+        for nest in NESTINGS:
+            stmts = [l.replace('@A@', f'nope {op} {val}') for l in NESTINGS[nest]]
+            for ctx in CTX:
+                add(f'undefined:{op}:{nest}@{ctx}', f'undefined:{op}:{nest}:{ctx}', stmts, ctx, False, {'form': 'undefined', 'op': op, 'nest': nest})
+    # assignment in another function than the definition (the name is not visible there)
+    for fin in (False, True):
+        top = ['def other() -> Int =>', '    gx := 5', '    0']
+        src = P + f"\ndef {'fin ' if fin else ''}gx := 1\n" + '\n'.join(top) + '\n\nprint(other())\n'
+        out.append((f'other-function{"-fin" if fin else ""}', f"other-function:{'fin' if fin else 'mut'}", src, False if fin else None,
+                    {'form': 'other-function', 'fin': fin, 'ctx': 'fun'}))
+    # shadowing re-definitions that flip mutability
+    SH = [('fin-then-mut', ['def fin x := 1', 'def x := 2'], True), ('mut-then-fin', ['def x := 1', 'def fin x := 2'], False),
+          ('fin-mut-fin', ['def fin x := 1', 'def x := 2', 'def fin x := 3'], False), ('mut-fin-mut', ['def x := 1', 'def fin x := 2', 'def x := 3'], True),
+          ('fin-then-mut-other-type', ['def fin x := "s"', 'def x := 2'], True), ('mut-then-fin-other-type', ['def x := "s"', 'def fin x := 2'], False)]
+    for name, defs, must in SH:
+        for nest in ('same-block', 'in-if', 'in-for', 'nested-2'):
+            stmts = defs + [l.replace('@A@', 'x := 9') for l in NESTINGS[nest]]
+            for ctx in CTX:
+                add(f'shadow-{name}:{nest}@{ctx}', f'shadow:{name}:{nest}:{ctx}', stmts, ctx, must, {'form': 'shadow', 'shadow': name, 'nest': nest})
+    return [c for c in out if c[3] is not None]
+
+
+# ====================================================================================== C08: raises declared or handled
+C08_PARENT = {'E1': 'Exception', 'E2': 'E1', 'E3': 'Exception', 'E4': 'E2', 'Exception': None}
+
+
+def c08_anc(c):
+    out = []
+    while c:
+        out.append(c)
+        c = C08_PARENT.get(c)
+    return out
+
+
+def c08_prelude(K):
+    return f'''class E1(msg: Str): Exception(msg)
+class E2(msg: Str): E1(msg)
+class E3(msg: Str): Exception(msg)
+class E4(msg: Str): E2(msg)
+class NotExc(def nx: Int)
+
+class Boom(msg: Str): Exception(msg)
+
+def boomf() -> Int raise [Boom] =>
+    raise Boom("b")
+    0
+
+class Src
+    def mraise(self, k: Int) -> Int raise [{K}] =>
+        if k > 0 then
+            raise {K}("m")
+        k
+
+def fraise(k: Int) -> Int raise [{K}] =>
+    if k > 0 then
+        raise {K}("m")
+    k
+'''
+
+
+def c08_subsets():
+    import itertools
+    base = ['E1', 'E2', 'E3', 'Exception']
+    out = [()]
+    for n in (1, 2):
+        out += list(itertools.combinations(base, n))
+    return out
+
+
+def c08_cells(slice_mod=None, slice_seed=0):
+    out = []
+    SOURCES = {'raise-stmt': 'raise @K@("m")', 'call': 'fraise(k)', 'method-call': 'Src().mraise(k)'}
+    subsets = c08_subsets()
+    idx = 0
+    for K in ('E1', 'E2', 'E3', 'E4'):
+        pre = c08_prelude(K)
+        for sname, sexpr in SOURCES.items():
+            sexpr = sexpr.replace('@K@', K)
+            for D in subsets:
+                for H in subsets:
+                    for pos in ('plain', 'init', 'in-if', 'in-loop', 'in-match-arm', 'in-outer-handle-arm', 'in-own-handle-arm'):
+                        if pos == 'init' and sname == 'raise-stmt':
+                            continue
+                        if pos == 'in-own-handle-arm' and not H:
+                            continue
+                        idx += 1
+                        if slice_mod and (idx * 2654435761 + slice_seed) % slice_mod != 0:
+                            continue
+                        # the subject statement (with its handle, if any)
+                        if pos == 'init':
+                            core = [f'def r := {sexpr}' + (' handle' if H else '')] + [f'    e{i}: {h} => 0' for i, h in enumerate(H)]
+                        elif pos == 'in-own-handle-arm':
+                            # the raise source stands in an ARM of a handle for H: arms are not protected by their own handle
+                            core = ['boomf() handle', '    eb: Boom => print("b")'] if False else []
+                            core = ['fraise(0) handle'] if sname != 'x' else []
+                            core = ['boomf() handle'] + [f'    e{i}: {h} =>\n            {sexpr}' for i, h in enumerate(H)] + ['    eb: Boom => print("b")']
+                        else:
+                            core = [sexpr + (' handle' if H else '')] + [f'    e{i}: {h} => print("h{i}")' for i, h in enumerate(H)]
+                        if pos in ('plain', 'init', 'in-own-handle-arm'):
+                            body = core
+                        elif pos == 'in-if':
+                            body = ['if k > 1 then'] + ind(core, 1)
+                        elif pos == 'in-loop':
+                            body = ['for z in 0 .. k do'] + ind(core, 1)
+                        elif pos == 'in-match-arm':
+                            body = ['match k', '    1 =>'] + ind(core, 2) + ['    _ =>', '        print("o")']
+                        elif pos == 'in-outer-handle-arm':
+                            body = ['boomf() handle', '    eb: Boom =>'] + ind(core, 2)
+                        decl = f" raise [{', '.join(D)}]" if D else ''
+                        # declared Boom where the wrapper needs it
+                        top = [f'def subject(k: Int) -> Int{decl} =>'] + ind(body + ['0'], 1)
+                        src = pre + '\n' + '\n'.join(top) + '\n\nprint("end")\n'
+                        protected = set(D) | (set(H) if pos != 'in-own-handle-arm' else set())
+                        must = any(a in protected for a in c08_anc(K))
+                        dcat = 'none' if not D else ('self' if K in D else ('ancestor' if any(a in D for a in c08_anc(K)) else 'unrelated'))
+                        hcat = 'none' if not H else ('self' if K in H else ('ancestor' if any(a in H for a in c08_anc(K)) else 'unrelated'))
+                        gid = f'{sname}:declared-{dcat}:handled-{hcat}:{pos}'
+                        out.append((f"{K}:{sname}:D={'+'.join(D) or '-'}:H={'+'.join(H) or '-'}@{pos}", gid, src, must,
+                                    {'raised': K, 'source': sname, 'declared': D, 'handled': H, 'ctx': pos}))
+    # callees that declare TWO exceptions: every one of them must be covered
+    for K, K2 in (('E1', 'E3'), ('E2', 'E3'), ('E3', 'E2'), ('E4', 'E3')):
+        pre = c08_prelude(K) + f"""
+def fraise2(k: Int) -> Int raise [{K}, {K2}] =>
+    if k > 0 then
+        raise {K}("m")
+    if k < 0 then
+        raise {K2}("n")
+    k
+"""
+        for D in subsets:
+            for H in subsets:
+                for pos in ('plain', 'in-if', 'init'):
+                    if pos == 'init':
+                        core = ['def r := fraise2(k)' + (' handle' if H else '')] + [f'    e{i}: {h} => 0' for i, h in enumerate(H)]
+                    else:
+                        core = ['fraise2(k)' + (' handle' if H else '')] + [f'    e{i}: {h} => print("h{i}")' for i, h in enumerate(H)]
+                    body = core if pos != 'in-if' else ['if k > 1 then'] + ind(core, 1)
+                    decl = f" raise [{', '.join(D)}]" if D else ''
+                    top = [f'def subject(k: Int) -> Int{decl} =>'] + ind(body + ['0'], 1)
+                    src = pre + '\n' + '\n'.join(top) + '\n\nprint("end")\n'
+                    prot = set(D) | set(H)
+                    c1 = any(a in prot for a in c08_anc(K)); c2 = any(a in prot for a in c08_anc(K2))
+                    cov = 'both' if c1 and c2 else ('first-only' if c1 else ('second-only' if c2 else 'neither'))
+                    out.append((f"{K}+{K2}:call-2:D={'+'.join(D) or '-'}:H={'+'.join(H) or '-'}@{pos}", f'call-2:covered-{cov}:{pos}', src, c1 and c2,
+                                {'raised': [K, K2], 'source': 'call-2', 'declared': D, 'handled': H, 'ctx': pos}))
+    # after a handle the protection must end; a second, unhandled call is rejected
+    for K in ('E1', 'E2'):
+        pre = c08_prelude(K)
+        for pos, lines in (('after-handle-same-block', ['fraise(k) handle', '    e: E1 => print("h")', 'fraise(k)']),
+                           ('after-handle-in-if', ['if k > 1 then', '    fraise(k) handle', '        e: E1 => print("h")', 'fraise(k)']),
+                           ('after-handle-def', ['def r := fraise(k) handle', '    e: E1 => 0', 'def s := fraise(k)']),
+                           ('before-handle', ['fraise(k)', 'fraise(k) handle', '    e: E1 => print("h")'])):
+            top = ['def subject(k: Int) -> Int =>'] + ind(lines + ['0'], 1)
+            out.append((f'{K}:{pos}', f'scope:{pos}', pre + '\n' + '\n'.join(top) + '\n\nprint("end")\n', False, {'raised': K, 'ctx': pos, 'source': 'call'}))
+        top = ['def subject(k: Int) -> Int =>'] + ind(['fraise(k) handle', '    e: E1 => print("h")', 'fraise(k) handle', '    e: E1 => print("h2")', '0'], 1)
+        out.append((f'{K}:two-handles', 'scope:two-handles', pre + '\n' + '\n'.join(top) + '\n\nprint("end")\n', True, {'raised': K, 'ctx': 'two-handles', 'source': 'call'}))
+    # only subclasses of Exception may be declared
+    for bad, must in (('NotExc', False), ('Int', False), ('Str', False), ('E1', True), ('Exception', True), ('Boom', True)):
+        pre = c08_prelude('E1')
+        src = pre + f'\ndef subject(k: Int) -> Int raise [{bad}] =>\n    k\n\nprint("end")\n'
+        out.append((f'declare:{bad}', f"declare:{'exception-class' if must else 'not-an-exception'}", src, must, {'ctx': 'declare', 'declared': bad}))
+    return out
+
+
+# ====================================================================================== C09: definite assignment
+C09_PRELUDE = '''class Boom(msg: Str): Exception(msg)
+
+def boomf() -> Int raise [Boom] =>
+    raise Boom("b")
+    0
+
+def fi(a: Int) -> Int => a + 1
+'''
+
+USE_FORMS = {'print': 'print(@X@)', 'init': 'def uy := @X@ + 1', 'arg': 'print(fi(@X@))', 'cond': 'if @X@ > 0 then print("p")', 'fstr': 'print("v{@X@}")'}
+
+
+def c09_cells():
+    out = []
+    P = C09_PRELUDE
+    CTX = ['top', 'fun', 'method', 'loop', 'then', 'arm', 'handle-arm']
+    # (name, lines with @U@ = the use, must accept)
+    PLACEMENTS = [
+        ('never', ['@U@'], False),
+        ('before', ['def x := 1', '@U@'], True),
+        ('before-annotated', ['def x: Int := 1', '@U@'], True),
+        ('later-same-block', ['@U@', 'def x := 1'], False),
+        ('only-then', ['if 1 < 2 then', '    def x := 1', '@U@'], False),
+        ('only-else', ['if 1 > 2 then', '    print("n")', 'else', '    def x := 1', '@U@'], False),
+        ('both-branches', ['if 1 < 2 then', '    def x := 1', 'else', '    def x := 2', '@U@'], True),
+        ('one-match-arm', ['match 1', '    1 =>', '        def x := 1', '    _ =>', '        print("n")', '@U@'], False),
+        ('all-match-arms', ['match 1', '    1 =>', '        def x := 1', '    _ =>', '        def x := 2', '@U@'], True),
+        ('loop-body-then-after', ['for zi in 0 .. 2 do', '    def x := 1', '@U@'], False),
+        ('while-body-then-after', ['def zw := 0', 'while zw < 1 do', '    def x := 1', '    zw := zw + 1', '@U@'], False),
+        ('for-variable-after', ['for x in 0 .. 2 do', '    print("b")', '@U@'], False),
+        ('match-binder-after', ['match 1', '    x =>', '        print("b")', '@U@'], False),
+        ('match-binder-other-arm', ['match 5', '    0 =>', '        print("z")', '    x =>', '        print("b")', '    _ =>', '        @U@'], False),
+        ('match-binder-inside', ['match 1', '    x =>', '        @U@'], True),
+        ('for-variable-inside', ['for x in 0 .. 2 do', '    @U@'], True),
+        ('handle-arm-def-after', ['boomf() handle', '    zerr: Boom =>', '        def x := 1', '@U@'], False),
+        ('handle-var-inside', ['boomf() handle', '    zerr: Boom =>', '        print("h")'], True),
+        ('comprehension-var-after', ['def zl := [x | x in 0 .. 3]', '@U@'], False),
+        ('inner-block-def-used-inner', ['if 1 < 2 then', '    def x := 1', '    @U@'], True),
+        ('outer-def-used-inner-2', ['def x := 1', 'if 1 < 2 then', '    for zi in 0 .. 2 do', '        @U@'], True),
+        ('outer-def-used-inner-3', ['def x := 1', 'for zi in 0 .. 2 do', '    if zi < 5 then', '        match zi', '            0 =>', '                @U@', '            _ =>', '                print("n")'], True),
+        ('shadow-same-type', ['def x := 1', 'def x := 2', '@U@'], True),
+        ('shadow-other-type-then-int-use', ['def x := "s"', 'def x := 2', '@U@'], True),
+        ('shadow-in-branch-only', ['if 1 < 2 then', '    def x := 1', '    def x := 2', '@U@'], False),
+        ('defined-after-use-in-branch', ['if 1 < 2 then', '    @U@', 'def x := 1'], False),
+        ('tuple-def', ['def (x, xo) := (1, 2)', '@U@'], True),
+        ('tuple-def-later', ['@U@', 'def (x, xo) := (1, 2)'], False),
+        ('self-reference-in-init', ['def x := x + 1'], False),
+    ]
+    for pname, lines, must in PLACEMENTS:
+        for uname, uform in USE_FORMS.items():
+            if '@U@' not in '\n'.join(lines) and uname != 'print':
+                continue
+            stmts = [l.replace('@U@', uform.replace('@X@', 'x')) for l in lines]
+            for ctx in CTX:
+                src = wrap(stmts, ctx).replace(PRELUDE, P)
+                out.append((f'{pname}:{uname}@{ctx}', f'{pname}:{uname}:{ctx}', src, must, {'placement': pname, 'use': uname, 'ctx': ctx}))
+    # parameters outside their function; a function's local outside
+    out.append(('param-outside', 'param-outside:top', P + '\ndef pf(pp: Int) -> Int => pp\nprint(pp)\n', False, {'placement': 'param-outside', 'ctx': 'top'}))
+    out.append(('local-of-function-outside', 'local-outside:top', P + '\ndef pf() -> Int =>\n    def loc := 1\n    loc\nprint(loc)\n', False, {'placement': 'local-outside', 'ctx': 'top'}))
+    # top-level functions and classes used above their definition (the statement: "defined only later" => rejected)
+    out.append(('function-used-before-def', 'forward:function:top', P + '\nprint(later(1))\ndef later(a: Int) -> Int => a\n', False, {'placement': 'forward-function', 'ctx': 'top'}))
+    out.append(('class-used-before-def', 'forward:class:top', P + '\ndef fo := Later()\nclass Later\n    def v: Int := 1\nprint(fo.v)\n', False, {'placement': 'forward-class', 'ctx': 'top'}))
+    out.append(('function-used-after-def', 'backward:function:top', P + '\ndef earlier(a: Int) -> Int => a\nprint(earlier(1))\n', True, {'placement': 'backward-function', 'ctx': 'top'}))
+    out.append(('function-calls-later-function-inside-body', 'forward:in-body:top', P + '\ndef fa(a: Int) -> Int => fb2(a)\ndef fb2(a: Int) -> Int => a\nprint(fa(1))\n', True,
+                {'placement': 'forward-in-body', 'ctx': 'top'}))
+    # fields in an explicit constructor
+    CTOR = [
+        ('read-after-assign', ['self.x := a', 'self.y := self.x + 1'], True),
+        ('read-before-assign', ['self.y := self.x + 1', 'self.x := a'], False),
+        ('read-never-assigned', ['self.y := self.x + 1'], False),
+        ('print-before-assign', ['print(self.x)', 'self.x := a', 'self.y := a'], False),
+        ('assign-in-one-branch-then-read', ['if a > 0 then', '    self.x := a', 'self.y := self.x'], False),
+        ('assign-in-both-branches-then-read', ['if a > 0 then', '    self.x := a', 'else', '    self.x := 0', 'self.y := self.x'], True),
+        ('assign-in-match-arm-then-read', ['match a', '    1 =>', '        self.x := a', '    _ =>', '        print("n")', 'self.y := self.x'], False),
+        ('missing-field-assignment', ['self.x := a'], False),
+        ('all-assigned', ['self.x := a', 'self.y := a'], True),
+    ]
+    for cname, body, must in CTOR:
+        src = P + '\nclass Pt\n    def x: Int\n    def y: Int\n    def __init__(self, a: Int) =>\n' + '\n'.join(ind(body, 2)) + '\n\ndef po := Pt(3)\nprint("end")\n'
+        out.append((f'ctor:{cname}', f'ctor:{cname}', src, must, {'placement': 'ctor:' + cname, 'ctx': 'ctor'}))
     return out
